@@ -865,6 +865,25 @@ def _models_check(rec, models, name, args, out):
                 and np.all(np.abs(it.point(k_new) - xn) <= rnd)
             )
         ent["stored_ok"] = ok
+    elif name == "init":
+        # the k-th evaluation of the run was made at the k-th initial point and returned the values stored for it
+        ok = None
+        if len(rec.pcalls) >= models.npt:
+            ok = True
+            for k in range(models.npt):
+                p = rec.pcalls[k]
+                if p["ret"] is None:
+                    ok = None
+                    break
+                xk = it.point(k)
+                rnd = 8 * np.finfo(float).eps * np.maximum(np.abs(xk), np.abs(it.x_base))
+                if not (p["x"].shape == xk.shape and np.all(np.abs(p["x"] - xk) <= rnd)
+                        and p["ret"][0] == models.fun_val[k]
+                        and np.array_equal(p["ret"][1], models.cub_val[k, :])
+                        and np.array_equal(p["ret"][2], models.ceq_val[k, :])):
+                    ok = False
+                    break
+        ent["stored_ok"] = ok
     rec.notes.setdefault("models", []).append(ent)
 
 
@@ -962,7 +981,7 @@ def interval_excess(v, lb, ub):
     ub = np.broadcast_to(np.asarray(ub, float), v.shape).copy()
     lb[np.isnan(lb)] = -INF
     ub[np.isnan(ub)] = INF
-    with np.errstate(invalid="ignore"):
+    with np.errstate(invalid="ignore", over="ignore"):
         lo = np.where(lb > -INF, lb - v, -INF)
         hi = np.where(ub < INF, v - ub, -INF)
     limited = (lb > -INF) | (ub < INF)
